@@ -30,7 +30,9 @@ def configs(ctx):
         out.append(dc(op="sweep", n=2, proposal=prop, data_seed=44))
         out.append(dc(op="sweep", n=2, proposal=prop, data_seed=45, outlier_prob=0.2, alpha=0.6))
         out.append(dc(op="sweep", n=2, proposal=prop, data_seed=46, subtree_prob=0.5))
+    out.append(dc(op="prg", n=5, style="flat", symmetric=1, data_seed=52, alpha=1.4))
     mandatory = len(out)
+    out.append(dc(op="subtree", n=4, style="flat", symmetric=1, proposal="semi-adapted", wiring="run", data_seed=53))
     out.append(dc(op="sweep", n=3, proposal="semi-adapted", data_seed=47))
     r = random.Random(ctx.sub("cfg"))
     for i in range(30 if quick else 300):
@@ -46,6 +48,8 @@ def configs(ctx):
         for prop in PROPOSALS:
             out.append(dc(op="subtree", n=4, proposal=prop, wiring="run", data_seed=48))
             out.append(dc(op="sweep", n=3, proposal=prop, data_seed=49, outlier_prob=0.1))
+        out.append(dc(op="dp", n=5, style="flat", symmetric=1, data_seed=54, outlier_prob=0.0))
+        out.append(dc(op="prg", n=5, style="flat", symmetric=1, data_seed=55, outlier_prob=0.2))
         out.append(dc(op="dp", n=5, data_seed=50))
         out.append(dc(op="prg", n=5, data_seed=51))
     return out, mandatory
